@@ -29,6 +29,8 @@ PM = "guppylang_internals.definition.pytket_circuits"
 def run(chk):
     chk.section("wiring", lambda: wiring(chk))
     chk.section("signature", lambda: signature(chk))
+    for i in range(NCH_B):
+        chk.section(f"bounded-{i}", lambda i=i: bounded(chk, i))
     chk.expected_min_obligations = 40
     chk.assumptions += [
         "pytket: Circuit.q_registers / c_registers list the registers in lexicographic order with their sizes; n_qubits / n_bits / free_symbols() are as documented",
@@ -36,7 +38,28 @@ def run(chk):
         "hugr-py function builder: inputs() are the function inputs in order, call(f, *wires) passes wires positionally, set_outputs fixes the outputs positionally",
         "parameter lists of up to 4 names (all permutations), up to 2 registers of sizes 1..2 are enumerated",
     ]
-    chk.not_covered += ["the unitary the circuit's HUGR implements (tket's responsibility)", "angle -> half-turn conversion of parameters beyond unpacking the angle struct"]
+    chk.not_covered += ["the unitary the circuit's HUGR implements (tket's responsibility; the bounded layer compares with pytket's own unitary for nine circuits)", "angle -> half-turn conversion of parameters beyond unpacking the angle struct (bounded layer only)"]
+    chk.assumptions += ["bounded layer: tket.circuit.Tk2Circuit is a stand-in over the installed tket (rotation parameters converted from float half-turns where they enter the circuit function), see C26_oracle.py"]
+
+
+NCH_B = 8
+
+
+def bounded(chk, i):
+    """BOUNDED: loaded circuits on the state-vector emulator against pytket's own unitary (C26_oracle.py)"""
+    import json
+    from pyvc.report import run_replay
+    from .C26_oracle import ORACLE, DRIVER
+    res = run_replay(ORACLE + DRIVER, {"chunk": i, "nchunks": NCH_B, "tier": chk.tier}, chk.repo, timeout=6000)
+    if "evaluations" not in res:
+        chk.undecided(f"bounded[{i}/{NCH_B}]:circuits", "oracle run failed: " + json.dumps(res)[:800])
+        return
+    w = res.get("witness")
+    o = chk.bounded_result(f"bounded[{i}/{NCH_B}]:loaded-circuit-on-the-emulator==pytket's-unitary-on-the-qubits-in-lexicographic-register-order/\\bits-in-pytket's-order/\\parameters-by-name(slice {i} of {NCH_B})",
+                           not res.get("violates"), res["evaluations"],
+                           detail=res.get("detail") or f"{res['evaluations']} runs (circuit x use_arrays x input state; declared stubs in slice 0) agree with pytket", witness=w, func=f"{PM}:ParsedPytketDef.compile_outer")
+    if w and w.get("circuit") != "stub":
+        o.replay.update({"script": ORACLE + DRIVER, "input": {"chunk": 0, "nchunks": 1, "only": w["circuit"]}})
 
 
 class Rec:
